@@ -131,6 +131,8 @@ class IsoDepInitiator(object):
                         if len(data) < 2 or n_wtx > self.max_wtx_requests:
                             raise nfc.clf.ProtocolError
                         wait = (data[1] & 0x3F) * self.fwt
+                        # respond with WTXM only, b8-b7 shall be zero
+                        data = bytearray([data[0], data[1] & 0x3F])
                         attempts = itertools.count(start=1)
                         continue
                     if data[0] == 0xA2 | (~self.pni & 1):
@@ -196,6 +198,8 @@ class IsoDepInitiator(object):
                         if len(data) < 2 or n_wtx > self.max_wtx_requests:
                             raise nfc.clf.ProtocolError
                         wait = (data[1] & 0x3F) * self.fwt
+                        # respond with WTXM only, b8-b7 shall be zero
+                        data = bytearray([data[0], data[1] & 0x3F])
                         attempts = itertools.count(start=1)
                         continue
                     break
